@@ -159,7 +159,8 @@ def failed_writes(draw):
                    meta_kinds=('zone', 'parameter', 'comment', 'equipment'), max_meta=3, units=False,
                    byte_orders=('<',), sources=('dict',))
     spec = draw(file_specs(prof))
-    damage = draw(st.sampled_from(['missing-data', 'bad-ocs', 'wrong-dimension', 'bad-window', 'hc-signed']))
+    damage = draw(st.sampled_from(['missing-data', 'bad-ocs', 'wrong-dimension', 'bad-window', 'hc-signed',
+                                   'hc-nonuniform-index', 'hc-nonuniform-index']))
     return {'kind': 'failed-write', 'spec': spec, 'damage': damage, 'sel': draw(st.integers(0, 50))}
 
 
@@ -326,6 +327,8 @@ class C20(Property):
             net['lfs'][0]['ops'][j].pop('cast', None)
             if ops[j].get('cast'):
                 return Result([], labels, False, 'damage-not-applicable')
+        elif damage == 'hc-nonuniform-index':
+            return self.run_hc_nonuniform(case, ctx, labels)
         first = 'written'
         try:
             with hc:
@@ -355,6 +358,59 @@ class C20(Property):
             where, detail = localise(mine[1], theirs)
             viol.append(Violation(f"failed-write-left-trace/{damage}/{where.split(':')[0]}", f"{where}: {detail}"))
         return Result(viol, labels, mine[0] == 'written', 'repaired-' + mine[0], sample={'damage': damage})
+
+    def run_hc_nonuniform(self, case, ctx, labels):
+        """A write inside high-compatibility mode fails on a non-uniform index after the frame's index values were
+        derived; the same DLISFile is then written outside the mode with another row range."""
+        from dliswriter import high_compatibility_mode
+        from vf.spec import model
+        spec = copy.deepcopy(case['spec'])
+        ops = spec['lfs'][0]['ops']
+        frames = [j for j, op in enumerate(ops) if op['t'] == 'frame']
+        f = ops[frames[case['sel'] % len(frames)]]
+        cj = f['attrs']['channels']['v'][0]['$ref']
+        rows = ops[cj]['data']['shape'][0]
+        if rows < 4:
+            return Result([], labels, False, 'damage-not-applicable')
+        vals = (1000.0 + np.cumsum(np.arange(rows) % 3 + 1)).astype('<f8')
+        ops[cj]['data'] = model.array_spec_from(vals)
+        ops[cj].pop('cast', None)
+        f['attrs']['index_type'] = {'v': 'BOREHOLE-DEPTH', 'r': 'kw'}
+        for k in ('spacing', 'index_min', 'index_max', 'direction'):
+            f['attrs'].pop(k, None)
+        try:
+            b = B.build(spec, ctx.scratch)
+        except B.BuildError:
+            return Result([], labels, False, 'invalid-base')
+        data = B.make_source(spec, b, ctx.scratch)
+        kw = B.write_kwargs(spec)
+        first = 'written'
+        try:
+            with high_compatibility_mode():
+                b.df.write(ctx.path(), data=data, **kw)
+        except Exception:
+            first = 'raised'
+        if first != 'raised':
+            return Result([], labels + ['first-write-did-not-fail'], False, 'first-write-did-not-fail')
+        net = copy.deepcopy(spec)
+        net['write']['from'] = 1
+        kw2 = dict(kw, from_idx=1)
+        path = ctx.path()
+        try:
+            b.df.write(path, data=data, **kw2)
+            with open(path, 'rb') as fh:
+                mine = ('written', fh.read(), None)
+        except Exception as exc:
+            tn, site = dw.exc_site(exc)
+            mine = ('raised', None, f"{tn}@{site}: {exc}"[:300])
+        oc, theirs, exc = self.fresh.write(net)
+        viol = []
+        if mine[0] != oc:
+            viol.append(Violation(f"repaired-write-{mine[0]}-fresh-{oc}/hc-nonuniform-index", f"{mine[2]} / {exc}"))
+        elif oc == 'written' and mine[1] != theirs:
+            where, detail = localise(mine[1], theirs)
+            viol.append(Violation(f"failed-write-left-trace/hc-nonuniform-index/{where.split(':')[0]}", f"{where}: {detail}"))
+        return Result(viol, labels, mine[0] == 'written', 'repaired-' + mine[0], sample={'damage': 'hc-nonuniform-index'})
 
     def self_check(self, merged, tier):
         missing = [k for k in REJECTIONS if not merged['labels'].get('rej:' + k)]
